@@ -12,6 +12,7 @@
 #include "vcommon.hpp"
 #include "ovl_types.hpp"
 #include <unordered_set>
+#include <array>
 
 #if defined(__SANITIZE_ADDRESS__)
 #define OVL_EXACT 1
@@ -122,7 +123,16 @@ struct Case
     int vp;    // 0 = tag pass, 1..11 = boundary rotation r = vp-1
     int vd;    // extra rotation of operand b against operand a
     int vm;    // step of the rotation between neighbouring positions (1..10; 11 is prime, so every step is a permutation)
+    int al;    // Alias form: AL_NONE, AL_CA (result object IS operand a), AL_CB, AL_AB (a and b one object), AL_CAB
 };
+static const char *const ALN[NAL] = {"-", "c:a", "c:b", "a:b", "c:a:b"};
+// slot q lives in the object of slot root(q)
+inline int root_of(int al, int q)
+{
+    if (q == 1) return (al == AL_CA || al == AL_CAB) ? 0 : 1;
+    if (q == 2) return (al == AL_CB || al == AL_CAB) ? 0 : al == AL_AB ? 1 : 2;
+    return 0;
+}
 inline const Operand &opnd(const Spec &s, int slot) { return slot == 0 ? s.r : slot == 1 ? s.a : s.b; }
 inline bool has_mem(const Operand &o) { return o.carrier == C_ARR_UNIT || o.carrier == C_ARR_STRIDE || o.carrier == C_ARR_IDX || o.carrier == C_CONST_PTR; }
 
@@ -138,6 +148,7 @@ inline std::string casestr(const Case &c)
         if (o.carrier == C_ARR_IDX) t += fmt(" i%s=%s", sn[q], IPN[c.ip[q]]);
     }
     t += fmt(" vp=%d vd=%d vm=%d", c.vp, c.vd, c.vm);
+    if (c.al) t += fmt(" alias=%s", ALN[c.al]);
     return t;
 }
 inline int find_spec(const std::string &id)
@@ -164,6 +175,11 @@ inline bool parse_casestr(const std::string &str, Case &c)
     c.vd = (int)cu(m, "vd", 0);
     c.vm = (int)cu(m, "vm", 1);
     if (c.vm < 1 || c.vm >= NBV) c.vm = 1;
+    c.al = AL_NONE;
+    std::string al = cs(m, "alias", "-");
+    for (int j = 1; j < NAL; j++)
+        if (al == ALN[j]) c.al = j;
+    if (c.al && !(ovl_specs[c.si].alias & (1 << (c.al - 1)))) return false; // not expressible for this overload
     return true;
 }
 
@@ -241,6 +257,8 @@ inline std::string run_case(const Case &c, Counters *cnt, std::string *sample = 
         }
         A.stride[q] = c.s[q];
     }
+    int root[3];
+    for (int q = 0; q < 3; q++) A.root[q] = root[q] = root_of(c.al, q);
     u64 extq[3] = {0, 0, 0}, extmax = 0;
     for (int q = 0; q < 3; q++)
     {
@@ -255,6 +273,15 @@ inline std::string run_case(const Case &c, Counters *cnt, std::string *sample = 
     {
         const Operand &o = opnd(s, q);
         if (!has_mem(o)) continue;
+        if (root[q] != q)
+        {
+            // alias form: the same array object; the enumeration guarantees that both designate exactly the same positions
+            if (extq[q] != extq[root[q]]) return "framework\talias form with different extents";
+            sl[q].len = sl[root[q]].len;
+            sl[q].base = sl[root[q]].base;
+            A.ptr[q] = sl[q].base;
+            continue;
+        }
         if (OVL_EXACT)
         {
             sl[q].len = extq[q];
@@ -271,10 +298,36 @@ inline std::string run_case(const Case &c, Counters *cnt, std::string *sample = 
         }
         A.ptr[q] = sl[q].base;
     }
-    // ---- fill: every position of an input arena carries its own tag; designated ones get the pass value
+    // ---- fill.  Objects first (an object shared with the result starts as sentinels, an input object carries a tag in
+    // every position), then the operand values are written through the slots (a, then b), then the operand values are
+    // READ BACK: this snapshot, taken before the call, is what the oracle uses -- also when the result object is an operand.
     auto passval = [&](int q, int k, int i) -> u64 {
         int j = (q == 2 ? 3 * MAXL : 0) + k * 3 + i;
         return BV[(j * c.vm + (c.vp - 1) + (q == 2 ? c.vd : 0)) % NBV];
+    };
+    const Operand &ro = s.r;
+    auto regsent = [&](int i, int k) { return sentv(9000 + i * MAXL + k); };
+    if (has_mem(ro))
+        for (size_t p = 0; p < sl[0].len; p++) sl[0].base[p] = sentv(p);
+    else
+        for (int i = 0; i < 3; i++)
+            for (int k = 0; k < MAXL; k++) A.reg[0][i][k] = regsent(i, k);
+    for (int q = 1; q < 3; q++)
+    {
+        const Operand &o = opnd(s, q);
+        if (root[q] != q) continue;
+        if (has_mem(o))
+            for (size_t p = 0; p < sl[q].len; p++) sl[q].base[p] = tagv(q, p);
+        else if (o.carrier == C_REG)
+            for (int i = 0; i < 3; i++)
+                for (int k = 0; k < MAXL; k++) A.reg[q][i][k] = tagv(q, 8000 + k * 3 + i);
+    }
+    // storage cell of element (k, i) of slot q
+    auto cell = [&](int q, int k, int i) -> u64 * {
+        const Operand &o = opnd(s, q);
+        if (has_mem(o)) return &sl[q].base[pos_of(o, c, q, o.carrier == C_CONST_PTR ? 0 : k, i, idxbuf[q])];
+        if (o.carrier == C_CONST_VAL) return &A.cval[q][i];
+        return &A.reg[root[q]][i][k]; // C_REG / C_REGC
     };
     u64 val[3][MAXL][3];
     memset(val, 0, sizeof val);
@@ -282,38 +335,34 @@ inline std::string run_case(const Case &c, Counters *cnt, std::string *sample = 
     {
         const Operand &o = opnd(s, q);
         if (o.carrier == C_NONE) continue;
-        if (has_mem(o))
+        bool lanewise = o.carrier == C_ARR_UNIT || o.carrier == C_ARR_STRIDE || o.carrier == C_ARR_IDX || o.carrier == C_REG;
+        if (lanewise)
         {
-            for (size_t p = 0; p < sl[q].len; p++) sl[q].base[p] = tagv(q, p);
-            int nk = o.carrier == C_CONST_PTR ? 1 : L;
-            if (c.vp > 0)
-                for (int k = 0; k < nk; k++)
-                    for (int i = 0; i < o.kind; i++) sl[q].base[pos_of(o, c, q, k, i, idxbuf[q])] = passval(q, k, i);
             for (int k = 0; k < L; k++)
-                for (int i = 0; i < o.kind; i++) val[q][k][i] = sl[q].base[pos_of(o, c, q, o.carrier == C_CONST_PTR ? 0 : k, i, idxbuf[q])];
-            sl[q].copy.assign(sl[q].base, sl[q].base + sl[q].len);
+                for (int i = 0; i < o.kind; i++)
+                {
+                    if (c.vp > 0) *cell(q, k, i) = passval(q, k, i);
+                    else if (root[q] == 0) *cell(q, k, i) = tagv(q, 6000 + k * 3 + i); // shared with the result: replace the sentinel by a tag
+                }
         }
-        else if (o.carrier == C_CONST_VAL || o.carrier == C_REGC)
+        else // one constant for all lanes: const_ptr, const_val, regc
         {
             for (int i = 0; i < o.kind; i++)
             {
                 u64 v = c.vp > 0 ? passval(q, 0, i) : tagv(q, 7000 + i);
-                for (int k = 0; k < L; k++) val[q][k][i] = v;
-                if (o.carrier == C_CONST_VAL) A.cval[q][i] = v;
-                else
+                if (o.carrier == C_REGC)
                     for (int k = 0; k < MAXL; k++) A.reg[q][i][k] = v;
+                else *cell(q, 0, i) = v;
             }
         }
-        else // C_REG
-        {
-            for (int i = 0; i < o.kind; i++)
-                for (int k = 0; k < MAXL; k++)
-                {
-                    u64 v = (c.vp > 0 && k < L) ? passval(q, k, i) : tagv(q, 8000 + k * 3 + i);
-                    A.reg[q][i][k] = v;
-                    if (k < L) val[q][k][i] = v;
-                }
-        }
+    }
+    for (int q = 1; q < 3; q++)
+    {
+        const Operand &o = opnd(s, q);
+        if (o.carrier == C_NONE) continue;
+        for (int k = 0; k < L; k++)
+            for (int i = 0; i < o.kind; i++) val[q][k][i] = *cell(q, k, i);
+        if (has_mem(o) && root[q] == q) sl[q].copy.assign(sl[q].base, sl[q].base + sl[q].len);
     }
     // ---- precomputed sums (b0+b1, b0+b2, b1+b2), taken from the values b actually holds
     u64 auxbuf[3];
@@ -336,14 +385,11 @@ inline std::string run_case(const Case &c, Counters *cnt, std::string *sample = 
             else A.auxptr = auxbuf;
         }
     }
-    // ---- result carrier: sentinels
-    const Operand &ro = s.r;
-    if (has_mem(ro))
-        for (size_t p = 0; p < sl[0].len; p++) sl[0].base[p] = sentv(p);
-    else
-        for (int i = 0; i < 3; i++)
-            for (int k = 0; k < MAXL; k++) A.reg[0][i][k] = sentv(9000 + i * MAXL + k);
+    // result registers that are an operand object at the same time start with the operand values (written above);
+    // a snapshot of what the result object held before the call tells "never written" apart from "written"
     CallArgs before = A;
+    std::vector<u64> rbefore;
+    if (has_mem(ro)) rbefore.assign(sl[0].base, sl[0].base + sl[0].len);
 
 #if OVL_EXACT
     // exact access sets: every element of an array that the strides / indices do not designate is poisoned
@@ -351,7 +397,7 @@ inline std::string run_case(const Case &c, Counters *cnt, std::string *sample = 
     for (int q = 0; q < 3; q++)
     {
         const Operand &o = opnd(s, q);
-        if (!has_mem(o)) continue;
+        if (!has_mem(o) || root[q] != q) continue;
         ASAN_POISON_MEMORY_REGION(sl[q].base, sl[q].len * sizeof(u64));
         int nk = o.carrier == C_CONST_PTR ? 1 : L;
         for (int k = 0; k < nk; k++)
@@ -402,9 +448,9 @@ inline std::string run_case(const Case &c, Counters *cnt, std::string *sample = 
             if (cnt) { cnt->evals++; cnt->outcomes.insert(got % P); }
             if (got % P != ex[i] && fail.empty())
             {
-                bool untouched = has_mem(ro) ? got == sentv(p) : got == sentv(9000 + i * MAXL + k);
+                bool untouched = has_mem(ro) ? got == rbefore[p] : got == before.reg[0][i][k];
                 fail = "wrong\t" + fmt("lane %d coefficient %d", k, i) + (has_mem(ro) ? fmt(" (result position %llu)", (unsigned long long)p) : std::string(" (result register)")) +
-                       ": got " + hex(got) + (untouched ? " (sentinel: never written)" : "") + " = " + hex(got % P) + " mod p, scalar operation gives " + hex(ex[i]) + "; " + opstr(k);
+                       ": got " + hex(got) + (untouched ? " (unchanged: never written)" : "") + " = " + hex(got % P) + " mod p, scalar operation gives " + hex(ex[i]) + "; " + opstr(k);
             }
         }
     }
@@ -422,6 +468,7 @@ inline std::string run_case(const Case &c, Counters *cnt, std::string *sample = 
     for (int q = 1; q < 3 && fail.empty(); q++)
     {
         const Operand &o = opnd(s, q);
+        if (root[q] != q) continue; // the object is the result object (or operand a, which is checked as slot 1)
         if (has_mem(o) && memcmp(sl[q].base, sl[q].copy.data(), sl[q].len * sizeof(u64)) != 0)
         {
             size_t p = 0;
@@ -446,7 +493,7 @@ inline std::string run_case(const Case &c, Counters *cnt, std::string *sample = 
     if (cnt)
     {
         cnt->cases++;
-        bool nt = c.vp > 0;
+        bool nt = c.vp > 0 || c.al != AL_NONE;
         for (int q = 0; q < 3; q++)
         {
             const Operand &o = opnd(s, q);
@@ -498,45 +545,124 @@ inline std::vector<std::vector<std::pair<u64, int>>> axes(const Spec &s)
 
 static char *g_cur; // shared page: the case being executed (read by the parent after a crash)
 
+// configurations of an alias form: the slots that share one object get ONE geometry (same stride / same index pattern; unit
+// stride and identity indices when a unit-stride array is among them), so that position k of one is position k of the other;
+// the remaining slot and the values use a reduced set in the quick tier (unit + one non-unit stride, identity + scattered)
+typedef std::vector<std::pair<u64, int>> Axis;
+inline Axis reduced_axis(const Operand &o, bool is_result, bool thorough)
+{
+    Axis ax;
+    if (o.carrier == C_ARR_STRIDE)
+    {
+        if (thorough) { for (u64 v : STRIDES_T) if (!(is_result && v < (u64)o.kind)) ax.push_back({v, 0}); }
+        else { ax.push_back({(u64)o.kind, 0}); ax.push_back({5, 0}); }
+    }
+    else if (o.carrier == C_ARR_IDX)
+    {
+        for (int p = 0; p < NIP; p++)
+        {
+            if (is_result && (p == IP_EQ || p == IP_REP)) continue;
+            if (!thorough && p != IP_IDENT && p != IP_SCAT) continue;
+            ax.push_back({0, p});
+        }
+    }
+    else ax.push_back({0, 0});
+    return ax;
+}
+inline std::vector<std::array<std::pair<u64, int>, 3>> alias_configs(const Spec &s, int al, bool thorough)
+{
+    bool in[3];
+    int r0 = al == AL_AB ? 1 : 0;
+    for (int q = 0; q < 3; q++) in[q] = root_of(al, q) == r0; // the slots that are one object
+    bool unit = false, str = false, idx = false, mem = false, res = in[0];
+    int kind = 0;
+    for (int q = 0; q < 3; q++)
+        if (in[q])
+        {
+            const Operand &o = opnd(s, q);
+            kind = o.kind;
+            if (o.carrier == C_ARR_UNIT) unit = mem = true;
+            if (o.carrier == C_ARR_STRIDE) str = mem = true;
+            if (o.carrier == C_ARR_IDX) idx = mem = true;
+        }
+    Axis shared;
+    if (!mem) shared.push_back({0, 0});
+    else if (unit || (str && idx)) shared.push_back({(u64)kind, IP_IDENT});
+    else
+    {
+        Operand probe = {kind, str ? C_ARR_STRIDE : C_ARR_IDX};
+        shared = reduced_axis(probe, res, thorough);
+    }
+    Axis fr[3];
+    for (int q = 0; q < 3; q++)
+        if (!in[q]) fr[q] = reduced_axis(opnd(s, q), q == 0, thorough);
+        else fr[q].push_back({0, 0});
+    std::vector<std::array<std::pair<u64, int>, 3>> out;
+    for (auto &g : shared)
+        for (auto &x0 : fr[0])
+            for (auto &x1 : fr[1])
+                for (auto &x2 : fr[2])
+                {
+                    std::array<std::pair<u64, int>, 3> cfg = {x0, x1, x2};
+                    for (int q = 0; q < 3; q++)
+                        if (in[q]) cfg[q] = g;
+                    out.push_back(cfg);
+                }
+    return out;
+}
+
 inline void run_overload(int si, bool thorough, const char *prop)
 {
     const Spec &s = ovl_specs[si];
     Counters cnt;
-    auto ax = axes(s);
-    // value passes: tags once; boundary values BV[(j*vm + r + vd) % 11] at flat position j:
-    //   quick    vm = 1, every rotation r and every relative rotation vd of b against a (121 passes)
-    //   thorough every step vm = 1..10 as well (1210 passes): all arithmetic-progression triples of coefficients
-    int nm = thorough ? NBV - 1 : 1;
+    long long alias_cases = 0;
     int nsample = 0;
-    for (auto &r : ax[0])
-        for (auto &a : ax[1])
-            for (auto &b : ax[2])
-              for (int vm = 1; vm <= nm; vm++)
+    for (int al = 0; al < NAL; al++)
+    {
+        if (al && !(s.alias & (1 << (al - 1)))) continue;
+        std::vector<std::array<std::pair<u64, int>, 3>> cfgs;
+        if (al == AL_NONE)
+        {
+            auto ax = axes(s);
+            for (auto &r : ax[0])
+                for (auto &a : ax[1])
+                    for (auto &b : ax[2]) cfgs.push_back({r, a, b});
+        }
+        else cfgs = alias_configs(s, al, thorough);
+        // value passes: tags once; boundary values BV[(j*vm + r + vd) % 11] at flat position j:
+        //   quick    vm = 1, every rotation r and every relative rotation vd of b against a (121 passes)
+        //   thorough every step vm = 1..10 as well (1210 passes): all arithmetic-progression triples of coefficients
+        //   alias forms: vm = 1; quick vd in {0,5} (22 passes + tags), thorough every vd (121 passes + tags)
+        int nm = (thorough && al == AL_NONE) ? NBV - 1 : 1;
+        for (size_t ci = 0; ci < cfgs.size(); ci++)
+            for (int vm = 1; vm <= nm; vm++)
                 for (int vd = 0; vd < NBV; vd++)
                     for (int vp = ((vd == 0 && vm == 1) ? 0 : 1); vp <= NBV; vp++)
                     {
+                        if (s.b.kind == 0 && vd > 0) continue;                // one operand only: no relative rotation
+                        if (al && !thorough && vd != 0 && vd != 5) continue; // reduced value passes for alias forms
                         Case c;
                         c.si = si;
-                        c.s[0] = r.first; c.ip[0] = r.second;
-                        c.s[1] = a.first; c.ip[1] = a.second;
-                        c.s[2] = b.first; c.ip[2] = b.second;
+                        for (int q = 0; q < 3; q++) { c.s[q] = cfgs[ci][q].first; c.ip[q] = cfgs[ci][q].second; }
                         c.vp = vp;
                         c.vd = vd;
                         c.vm = vm;
-                        if (s.b.kind == 0 && vd > 0) continue; // one operand only: no relative rotation
+                        c.al = al;
                         std::string cs_ = casestr(c);
                         if (g_cur) { strncpy(g_cur, cs_.c_str(), 4000); g_cur[4000] = 0; }
                         std::string smp;
-                        bool want = nsample < 2 && vp == 2 && &a == &ax[1].back() && &b == &ax[2].back();
+                        bool want = nsample < 2 && vp == 2 && ci + 1 == cfgs.size();
                         std::string f = run_case(c, &cnt, want ? &smp : 0);
-                        if (want && !smp.empty()) { rep().sample(std::string("case"), smp, 1); nsample++; }
+                        if (al) alias_cases++;
+                        if (want && !smp.empty()) { rep().sample(std::string(al ? "alias-case" : "case"), smp, 1); nsample++; }
                         if (!f.empty())
                         {
                             size_t t = f.find('\t');
-                            rep().viol(std::string(prop) + "." + f.substr(0, t) + "." + s.id, cs_, fmt("%s(%s) %s:%d: ", s.name, s.decl, s.file, s.line) + f.substr(t + 1));
+                            rep().viol(std::string(prop) + "." + f.substr(0, t) + "." + s.id + (al ? ".alias" : ""), cs_, fmt("%s(%s) %s:%d: ", s.name, s.decl, s.file, s.line) + f.substr(t + 1));
                             if (++cnt.viol >= 40) goto done;
                         }
                     }
+    }
 done:
     if (g_cur) g_cur[0] = 0;
     const char *pre = OVL_EXACT ? "asan_" : "";
@@ -547,6 +673,7 @@ done:
     {
         rep().stat("distinct_nontrivial", cnt.nontriv);
         rep().stat("distinct_outcomes", (long long)cnt.outcomes.size());
+        rep().stat("alias_states", alias_cases);
     }
     rep().flush();
 }
@@ -596,6 +723,7 @@ inline void report_abnormal(const Iso &r, int si, const char *prop, const std::s
 {
     const Spec &s = ovl_specs[si];
     std::string where = fmt("%s(%s) %s:%d: ", s.name, s.decl, s.file, s.line);
+    std::string sfx = curcase.find(" alias=") != std::string::npos ? ".alias" : "";
     size_t a = r.err.find("ERROR: AddressSanitizer");
     if (a != std::string::npos)
     {
@@ -605,12 +733,12 @@ inline void report_abnormal(const Iso &r, int si, const char *prop, const std::s
         if (q != std::string::npos) { size_t b0 = r.err.rfind('\n', q); acc = r.err.substr(b0 + 1, r.err.find('\n', q) - b0 - 1); }
         size_t g = r.err.find("Goldilocks", a);
         if (g != std::string::npos) { size_t b0 = r.err.rfind('\n', g); frame = r.err.substr(b0 + 1, r.err.find('\n', g) - b0 - 1); }
-        rep().viol(std::string(prop) + ".asan." + s.id, curcase, clean(where + head + " | " + acc + " | " + frame).substr(0, 900));
+        rep().viol(std::string(prop) + ".asan." + s.id + sfx, curcase, clean(where + head + " | " + acc + " | " + frame).substr(0, 900));
     }
     else if (r.kind == 1 && r.code == SIGALRM)
-        rep().viol(std::string(prop) + ".timeout." + s.id, curcase, where + "no answer within the time limit");
+        rep().viol(std::string(prop) + ".timeout." + s.id + sfx, curcase, where + "no answer within the time limit");
     else
-        rep().viol(std::string(prop) + ".crash." + s.id, curcase, where + (r.kind == 1 ? fmt("killed by signal %d (%s)", r.code, strsignal(r.code)) : fmt("exit code %d", r.code)) + " " + clean(r.err.substr(0, 300)));
+        rep().viol(std::string(prop) + ".crash." + s.id + sfx, curcase, where + (r.kind == 1 ? fmt("killed by signal %d (%s)", r.code, strsignal(r.code)) : fmt("exit code %d", r.code)) + " " + clean(r.err.substr(0, 300)));
 }
 
 inline int ovl_main(int argc, char **argv)
@@ -632,7 +760,7 @@ inline int ovl_main(int argc, char **argv)
             if (!f.empty())
             {
                 size_t t = f.find('\t');
-                rep().viol(std::string(prop) + "." + f.substr(0, t) + "." + s.id, cstr_, fmt("%s(%s) %s:%d: ", s.name, s.decl, s.file, s.line) + f.substr(t + 1));
+                rep().viol(std::string(prop) + "." + f.substr(0, t) + "." + s.id + (c.al ? ".alias" : ""), cstr_, fmt("%s(%s) %s:%d: ", s.name, s.decl, s.file, s.line) + f.substr(t + 1));
             }
             else printf("INFO replay case passes: %s\n", cstr_.c_str());
         }, 120);
@@ -652,6 +780,14 @@ inline int ovl_main(int argc, char **argv)
         rep().stat("overloads_total", ovl_nspecs);
         rep().stat("overloads_covered", cov);
         rep().stat("overloads_uncovered", ovl_nspecs - cov);
+        int nal = 0, nalo = 0;
+        for (int i = 0; i < ovl_nspecs; i++)
+        {
+            if (ovl_specs[i].alias) nalo++;
+            for (int b = 0; b < 4; b++) nal += (ovl_specs[i].alias >> b) & 1;
+        }
+        rep().stat("overloads_with_alias_forms", nalo);
+        rep().stat("alias_forms", nal);
         rep().flush();
     }
     std::vector<int> todo;
